@@ -290,7 +290,7 @@ func genM1(r *rand.Rand, p Profile, id string) Case {
 			// and 16383|16384, 32-bit limits
 			iv = []int64{62, 63, 64, 126, 127, 128, 8190, 8191, 8192, 16382, 16383, 16384,
 				1<<31 - 2, 1<<31 - 1, 1 << 31, 1<<32 - 2, 1<<32 - 1, 1 << 32}[r.Intn(18)]
-			if p.W["expimp"] > 0 && iv > 1<<20 {
+			if (p.W["expimp"] > 0 || p.W["faultimport"] > 0) && iv > 1<<20 {
 				// the importer allocates a table indexed by the version number (the import version
 				// is the caller's trusted parameter): keep imported versions small
 				iv = 16383
@@ -513,6 +513,12 @@ func genM1(r *rand.Rand, p Profile, id string) Case {
 				}
 				ops = append(ops, []string{"fault", "cold", "r", "v" + i64(t.first()), "iterate"})
 			}
+			continue
+		case "faultimport":
+			if len(t.versions) == 0 {
+				continue
+			}
+			ops = append(ops, []string{"fault", "import", i64(t.versions[r.Intn(len(t.versions))])})
 			continue
 		case "faultsave":
 			ops = append(ops, []string{"fault", "save"})
